@@ -1,6 +1,6 @@
 SPECIFICATION TSpec
 CONSTANTS
-  Variant = "ascoded"
+  Variant = "repaired"
   CompInits = {}
   LocoInits = {}
   LoadFiles = {}
